@@ -5,8 +5,8 @@ Model of the RUNNING STATISTICS behind `stats` / `stats … by` and of their MER
                                            MergeSegStats (430-440), GetDefaultNumStats (30-36)          [query time]
   pkg/segment/writer/packer.go           : addSegStatsStrIngestion (1616-1645), addSegStatsNums (1665-1690),
                                            processStats (1692-1732)                                      [ingest time]
-  pkg/utils/numutils.go                  : FastParseFloat (29-104)            (ingest-time "is this string a number")
-  strconv.ParseFloat                     : decimal grammar only               (query-time "is this string a number")
+  pkg/utils/numutils.go                  : FastParseFloat (29-113)            ("is this string a number", both paths)
+  strconv.ParseFloat                     : decimal grammar only               (the query path's rule before c04-4)
   pkg/segment/structs/segstructs.go      : UpdateMinMax (819-832), SegStats.Merge (834-869), NumericStats.Merge (916-938)
   pkg/segment/utils/aggutils.go          : Reduce (27-164, Min/Max only), ReduceMinMax (279-311), GetMinMaxString
   pkg/segment/writer/segstore.go         : writeSstToBuf (1592-1702)  +  segread/segstatsreader.go readSingleSst (113-232)
@@ -18,14 +18,19 @@ Model of the RUNNING STATISTICS behind `stats` / `stats … by` and of their MER
   pkg/segment/results/blockresults/blockresult.go  : updateEValFromRunningBuckets — count (757), avg (823-826), range (899-917),
                                            sum/min/max (1023-1035);  GroupByBuckets.MergeBuckets (1049-1069)
 
-The code is mirrored AS IT IS, quirks included:
-  * `SegStats.Merge` does not merge `IsNumeric`; GetSegSum / GetSegAvg refuse a SegStats with IsNumeric = false.
-  * the ingest path decides "numeric string" with FastParseFloat, which also accepts "-", "+", ".", "e5" (value 0);
-    the query path uses strconv.ParseFloat.
-  * the group-by bucket divides avg by the number of RECORDS of the bucket and answers count(x) with it.
-  * `Reduce` (group-by min/max) returns an error when the running value is a string and a number arrives;
-    ProcessReduce then keeps the string.
-  * the integer sum is an int64 and wraps; it becomes a float64 at the first float and stays one.
+The code is mirrored AS IT IS, quirks included.  Four defects found with this slice were repaired (patches
+build/patches/c04-1..4, commits pending); the model follows the FIXED code and keeps the former behaviour under
+explicitly named `…Old` definitions (with counterexample theorems in Props/C04.lean):
+  * c04-1 `SegStats.Merge` now ORs `IsNumeric` (`SegStats.mergeOld` / `mergeOOld`: the receiver's flag was kept, so a
+    text-only first part made GetSegSum / GetSegAvg refuse the merged statistics);
+  * c04-2 `FastParseFloat` now wants a mantissa digit (`parseFastOld`: "-", "+", ".", "e5" were the number 0);
+  * c04-3 `Reduce` (group-by min/max) lets a number beat a running string (`reduceMMOld`: it returned an error and
+    ProcessReduce kept the string, so the answer depended on the order of the events);
+  * c04-4 `AddSegStatsStr` now uses FastParseFloat like the ingest path (`addStrQOld` / `foldQOld`: strconv.ParseFloat,
+    which also reads "nan", "inf", "1_000", "0x1p-2" as numbers).
+Still as found (known findings):
+  * the group-by bucket divides avg by the number of RECORDS of the bucket and answers count(x) with it;
+  * the integer sum is an int64 and wraps; it becomes a float64 at the first float and stays one; getRange wraps too.
 
 Numbers.  `Num.int` is an int64 (every addition is wrapped explicitly with `wrapS64`).  float64 values are EXACT
 RATIONALS; every float64 operation of the code is `rnd (exact result)` where `rnd : Rat → Rat` is a parameter of
@@ -33,8 +38,7 @@ the model: the Oracle instantiates it with `roundF64` (IEEE-754 round-to-nearest
 Props/C04.lean with the identity (exact arithmetic — the rounding latitude the property statement grants for
 floating sums).  `roundF64` is the identity on every value k/2^j with |k| < 2^53 in the normal range, so on the
 dyadic inputs the generators mostly use the two instantiations coincide; NaN, ±Inf, −0 and overflow to ±Inf are
-outside the model (the op-line generator does not produce them; strings that strconv.ParseFloat reads as NaN/Inf
-or as hexadecimal / underscore-separated numbers are answered `unmodelled` by the handler).
+outside the model (no fixed path produces them any more: "nan" / "inf" strings are text for FastParseFloat).
 uint64 inputs (`SS_UINT64`, cast to int64 by processStats) and bools (`addSegStatsBool`: Count only) are not modelled.
 Strings are Go byte strings (`List Nat`), compared bytewise like Go's `<`.  Core Lean only.
 -/
@@ -166,11 +170,19 @@ def valExact (d : Dec) : Rat :=
   | some (eneg, ed) =>
     if eneg then r / ((10 ^ digitsNat ed : Nat) : Rat) else r * ((10 ^ digitsNat ed : Nat) : Rat)
 
-/-- utils.FastParseFloat: every scanned string is a number, mantissa digits or not -/
-def parseFast (rnd : Rat → Rat) (s : Str) : Option Rat := (scanDec s).map (valFast rnd)
+/-- utils.FastParseFloat (as FIXED, patch c04-2: `sawDigit`): a scanned string is a number when its mantissa has at least
+one digit; the value is the function's own float64 computation -/
+def parseFast (rnd : Rat → Rat) (s : Str) : Option Rat :=
+  match scanDec s with
+  | some d => if d.ip = [] ∧ d.fp = [] then none else some (valFast rnd d)
+  | none => none
+
+/-- utils.FastParseFloat BEFORE the fix: every scanned string is a number, mantissa digits or not ("-", ".", "e5" = 0) -/
+def parseFastOld (rnd : Rat → Rat) (s : Str) : Option Rat := (scanDec s).map (valFast rnd)
 
 /-- strconv.ParseFloat restricted to strings over the decimal alphabet: at least one mantissa digit, correctly rounded.
-(inf / nan / hexadecimal / underscore forms: outside the model, see the header) -/
+(inf / nan / hexadecimal / underscore forms are numbers for it too: not modelled).  Used by AddSegStatsStr BEFORE the
+fix (patch c04-4 switched it to FastParseFloat): only `addStrQOld` refers to it. -/
 def parseStd (rnd : Rat → Rat) (s : Str) : Option Rat :=
   match scanDec s with
   | some d => if d.ip = [] ∧ d.fp = [] then none else some (rnd (valExact d))
@@ -212,8 +224,9 @@ def reduceMinMax (rnd : Rat → Rat) (isMin : Bool) (e1 e2 : CV) : CV :=
     | .flt _ => e2
     | .str b => .str (pickS isMin a b)
 
-/-- sutils.Reduce(e1, e2, Min|Max): `none` = the error return ("unsupported … Dtype") when e1 is a string and e2 a number -/
-def reduceMM (rnd : Rat → Rat) (isMin : Bool) (e1 e2 : CV) : Option CV :=
+/-- sutils.Reduce(e1, e2, Min|Max) BEFORE the fix: `none` = the error return ("unsupported … Dtype") when e1 is a string and
+e2 a number -/
+def reduceMMOld (rnd : Rat → Rat) (isMin : Bool) (e1 e2 : CV) : Option CV :=
   match e1 with
   | .invalid => some e2
   | .backfill =>
@@ -241,6 +254,38 @@ def reduceMM (rnd : Rat → Rat) (isMin : Bool) (e1 e2 : CV) : Option CV :=
     | .backfill => some e1
     | .int _ => none
     | .flt _ => none
+    | .str b => some (.str (pickS isMin a b))
+
+/-- sutils.Reduce(e1, e2, Min|Max) (as FIXED, patch c04-3): a running string and an incoming number go to ReduceMinMax
+like the opposite case — the number wins; no error remains on these types (`some` always) -/
+def reduceMM (rnd : Rat → Rat) (isMin : Bool) (e1 e2 : CV) : Option CV :=
+  match e1 with
+  | .invalid => some e2
+  | .backfill =>
+    match e2 with
+    | .invalid => some e1
+    | .backfill => some e1
+    | _ => some e2
+  | .int a =>
+    match e2 with
+    | .invalid => some e1
+    | .backfill => some e1
+    | .int b => some (.int (pickI isMin a b))
+    | .flt b => some (.flt (pickQ isMin (rnd a) b))
+    | .str _ => some e1
+  | .flt a =>
+    match e2 with
+    | .invalid => some e1
+    | .backfill => some e1
+    | .int b => some (.flt (pickQ isMin a (rnd b)))
+    | .flt b => some (.flt (pickQ isMin a b))
+    | .str _ => some e1
+  | .str a =>
+    match e2 with
+    | .invalid => some e1
+    | .backfill => some e1
+    | .int _ => some e2
+    | .flt _ => some e2
     | .str b => some (.str (pickS isMin a b))
 
 /-! ### per-column segment statistics (`structs.SegStats`) -/
@@ -297,12 +342,17 @@ def addNumQ (rnd : Rat → Rat) (o : Option SegStats) (v : Num) : Option SegStat
   else
     some (procNum rnd { st with isNumeric := true } defaultNum v)
 
-/-- stats.AddSegStatsStr -/
-def addStrQ (rnd : Rat → Rat) (o : Option SegStats) (s : Str) : Option SegStats :=
+/-- stats.AddSegStatsStr with the string rule `parse` -/
+def addStrQWith (parse : Str → Option Rat) (rnd : Rat → Rat) (o : Option SegStats) (s : Str) : Option SegStats :=
   let st := o.getD newText
-  match parseStd rnd s with
+  match parse s with
   | some f => addNumQ rnd (some st) (.flt f)
   | none => some (procStr rnd st s)
+
+/-- stats.AddSegStatsStr (as FIXED, patch c04-4): utils.FastParseFloat, the rule of the ingest path -/
+def addStrQ (rnd : Rat → Rat) : Option SegStats → Str → Option SegStats := addStrQWith (parseFast rnd) rnd
+/-- … BEFORE the fix: strconv.ParseFloat -/
+def addStrQOld (rnd : Rat → Rat) : Option SegStats → Str → Option SegStats := addStrQWith (parseStd rnd) rnd
 
 /-- writer.addSegStatsNums: NumStats created when missing -/
 def addNumI (rnd : Rat → Rat) (o : Option SegStats) (v : Num) : Option SegStats :=
@@ -311,29 +361,40 @@ def addNumI (rnd : Rat → Rat) (o : Option SegStats) (v : Num) : Option SegStat
   | some ns => some (procNum rnd st ns v)
   | none => some (procNum rnd { st with isNumeric := true } defaultNum v)
 
-/-- writer.addSegStatsStrIngestion -/
-def addStrI (rnd : Rat → Rat) (o : Option SegStats) (s : Str) : Option SegStats :=
+/-- writer.addSegStatsStrIngestion with the string rule `parse` -/
+def addStrIWith (parse : Str → Option Rat) (rnd : Rat → Rat) (o : Option SegStats) (s : Str) : Option SegStats :=
   let st := o.getD newText
-  match parseFast rnd s with
+  match parse s with
   | some f => addNumI rnd (some { st with isNumeric := true }) (.flt f)
   | none => some (procStr rnd st s)
 
-def stepQ (rnd : Rat → Rat) (o : Option SegStats) : Val → Option SegStats
+/-- writer.addSegStatsStrIngestion: utils.FastParseFloat (fixed) -/
+def addStrI (rnd : Rat → Rat) : Option SegStats → Str → Option SegStats := addStrIWith (parseFast rnd) rnd
+/-- … with FastParseFloat as it was BEFORE the fix -/
+def addStrIOld (rnd : Rat → Rat) : Option SegStats → Str → Option SegStats := addStrIWith (parseFastOld rnd) rnd
+
+def stepQWith (parse : Str → Option Rat) (rnd : Rat → Rat) (o : Option SegStats) : Val → Option SegStats
   | .absent => o
   | .int i => addNumQ rnd o (.int i)
   | .flt q => addNumQ rnd o (.flt q)
-  | .str s => addStrQ rnd o s
+  | .str s => addStrQWith parse rnd o s
 
-def stepI (rnd : Rat → Rat) (o : Option SegStats) : Val → Option SegStats
+def stepIWith (parse : Str → Option Rat) (rnd : Rat → Rat) (o : Option SegStats) : Val → Option SegStats
   | .absent => o
   | .int i => addNumI rnd o (.int i)
   | .flt q => addNumI rnd o (.flt q)
-  | .str s => addStrI rnd o s
+  | .str s => addStrIWith parse rnd o s
+
+def foldQWith (parse : Str → Option Rat) (rnd : Rat → Rat) (vs : List Val) : Option SegStats := vs.foldl (stepQWith parse rnd) none
+def foldIWith (parse : Str → Option Rat) (rnd : Rat → Rat) (vs : List Val) : Option SegStats := vs.foldl (stepIWith parse rnd) none
 
 /-- query-time statistics of one column over a list of events (none = the map has no entry for the column) -/
-def foldQ (rnd : Rat → Rat) (vs : List Val) : Option SegStats := vs.foldl (stepQ rnd) none
+def foldQ (rnd : Rat → Rat) (vs : List Val) : Option SegStats := foldQWith (parseFast rnd) rnd vs
 /-- ingest-time statistics -/
-def foldI (rnd : Rat → Rat) (vs : List Val) : Option SegStats := vs.foldl (stepI rnd) none
+def foldI (rnd : Rat → Rat) (vs : List Val) : Option SegStats := foldIWith (parseFast rnd) rnd vs
+/-- the two paths BEFORE the fixes c04-2 / c04-4: strconv.ParseFloat at query time, the digit-less FastParseFloat at ingest -/
+def foldQOld (rnd : Rat → Rat) (vs : List Val) : Option SegStats := foldQWith (parseStd rnd) rnd vs
+def foldIOld (rnd : Rat → Rat) (vs : List Val) : Option SegStats := foldIWith (parseFastOld rnd) rnd vs
 
 /-- NumericStats.Merge / the nil cases of SegStats.Merge -/
 def mergeNum (rnd : Rat → Rat) : Option NumStats → Option NumStats → Option NumStats
@@ -341,21 +402,31 @@ def mergeNum (rnd : Rat → Rat) : Option NumStats → Option NumStats → Optio
   | some a, none => some a
   | some a, some b => some ⟨a.ncount + b.ncount, addSum rnd a.sum b.sum⟩
 
-/-- SegStats.Merge: Count, UpdateMinMax(other.Min), UpdateMinMax(other.Max), NumStats.  IsNumeric is NOT merged. -/
+/-- SegStats.Merge (as FIXED, patch c04-1): Count, IsNumeric (numeric as soon as one side is), UpdateMinMax(other.Min),
+UpdateMinMax(other.Max), NumStats -/
 def SegStats.merge (rnd : Rat → Rat) (a b : SegStats) : SegStats :=
   let mn1 := reduceMinMax rnd true a.min b.min
   let mx1 := reduceMinMax rnd false a.max b.min
-  { isNumeric := a.isNumeric
+  { isNumeric := a.isNumeric || b.isNumeric
     count := a.count + b.count
     min := reduceMinMax rnd true mn1 b.max
     max := reduceMinMax rnd false mx1 b.max
     num := mergeNum rnd a.num b.num }
+
+/-- SegStats.Merge BEFORE the fix: IsNumeric of the receiver is kept, the other side's is ignored -/
+def SegStats.mergeOld (rnd : Rat → Rat) (a b : SegStats) : SegStats :=
+  { a.merge rnd b with isNumeric := a.isNumeric }
 
 /-- stats.MergeSegStats restricted to one column: a missing entry adopts the other side's -/
 def mergeO (rnd : Rat → Rat) : Option SegStats → Option SegStats → Option SegStats
   | none, b => b
   | some a, none => some a
   | some a, some b => some (a.merge rnd b)
+
+def mergeOOld (rnd : Rat → Rat) : Option SegStats → Option SegStats → Option SegStats
+  | none, b => b
+  | some a, none => some a
+  | some a, some b => some (a.mergeOld rnd b)
 
 /-- writeSstToBuf → readSingleSst of one column (strings shorter than 65536 bytes).  `none`: the writer panics
 (type assertion on a non-number Min/Max or nil NumStats of a numeric column; no adder or merge produces that). -/
@@ -447,6 +518,7 @@ def sumStep (rnd : Rat → Rat) (s e : CV) : CV :=
 
 /-- ProcessReduce for Min / Max: on the error of Reduce the cell is kept -/
 def mmStep (rnd : Rat → Rat) (isMin : Bool) (s e : CV) : CV := (reduceMM rnd isMin s e).getD s
+def mmStepOld (rnd : Rat → Rat) (isMin : Bool) (s e : CV) : CV := (reduceMMOld rnd isMin s e).getD s
 
 def Val.toCV : Val → CV
   | .absent => .backfill
@@ -464,11 +536,23 @@ def stepRB (rnd : Rat → Rat) (o : Option RB) (v : Val) : Option RB :=
 
 def foldRB (rnd : Rat → Rat) (vs : List Val) : Option RB := vs.foldl (stepRB rnd) none
 
+/-- the bucket with `Reduce` as it was BEFORE the fix c04-3 -/
+def stepRBOld (rnd : Rat → Rat) (o : Option RB) (v : Val) : Option RB :=
+  let b := o.getD newRB
+  let e := v.toCV
+  some ⟨b.n + 1, sumStep rnd b.sum e, mmStepOld rnd true b.min e, mmStepOld rnd false b.max e⟩
+def foldRBOld (rnd : Rat → Rat) (vs : List Val) : Option RB := vs.foldl (stepRBOld rnd) none
+
 /-- GroupByBuckets.MergeBuckets for one key / MergeRunningBuckets -/
 def mergeRB (rnd : Rat → Rat) : Option RB → Option RB → Option RB
   | none, b => b
   | some a, none => some a
   | some a, some b => some ⟨a.n + b.n, sumStep rnd a.sum b.sum, mmStep rnd true a.min b.min, mmStep rnd false a.max b.max⟩
+
+def mergeRBOld (rnd : Rat → Rat) : Option RB → Option RB → Option RB
+  | none, b => b
+  | some a, none => some a
+  | some a, some b => some ⟨a.n + b.n, sumStep rnd a.sum b.sum, mmStepOld rnd true a.min b.min, mmStepOld rnd false a.max b.max⟩
 
 /-- CValueEnclosure.GetFloatValue -/
 def CV.float? (rnd : Rat → Rat) : CV → Option Rat
